@@ -311,3 +311,8 @@ def python_to_float(value: Union[SupportsFloat, str]) -> str:
 
 def python_to_int(value: Union[SupportsInt, str]) -> str:
     return str(int(value))
+
+
+def python_to_decimal(value: Union[Decimal, int, float, str]) -> str:
+    # str(Decimal) switches to scientific notation (e.g. '1E-7'), which is not an xs:decimal literal
+    return format(value, 'f') if isinstance(value, Decimal) else str(value)
